@@ -1537,6 +1537,34 @@ class Evaluator:
         if isinstance(v, Cond): return Cond(v.g, s.getitem(v.a, k), s.getitem(v.b, k))
         if isinstance(v, Ref) and v.kind == 'npfun' and v.name == 'r_' and isinstance(k, (tuple, list)) and not any(isinstance(x_, (str, Opq)) and (isinstance(x_, str) or x_.k[:1] == ('slice',)) for x_ in k):
             return s.npcall('hstack', [list(k)], {})              # np.r_[a, b, ...] joins its operands along the first axis (vectors: end to end)
+        if isinstance(v, Comp) and v.kind == 'dict' and len(v.gens) == 1 and isinstance(v.elt, tuple) and len(v.elt) == 2 and isinstance(k, Poly) \
+                and isinstance(v.elt[0], Poly) and isinstance(v.elt[1], Poly) and isinstance(v.gens[0][0], Opq) and len(v.gens[0][0].k) == 2 and v.gens[0][0].k[0] == 'items':
+            # {key: value for key, value in X.items() if ...}[k]  is  X[k]  (when the lookup succeeds at all)
+            X_ = v.gens[0][0].k[1]
+            if v.elt[0].as_atom() == ('keyof', 0, tkey(X_)) and v.elt[1].as_atom() == ('valof', 0, tkey(X_)): return s.getitem(X_, k)
+        if isinstance(v, Poly) and s.self_class is not None:
+            # self.<field>.<attr>[k]  is  self.<field>[k]  when the declared class of the field answers subscripts from that attribute
+            at_ = v.as_atom()
+            if isinstance(at_, tuple) and len(at_) == 3 and at_[0] == '.' and isinstance(at_[1], tuple) and len(at_[1]) == 3 and at_[1][0] == '.' and at_[1][1] == 'self' and isinstance(at_[2], str):
+                cache = s.__dict__.setdefault('_subscript_attr', {})
+                ck_ = (id(s.self_class[1]), at_[1][2])
+                if ck_ not in cache:
+                    cache[ck_] = None
+                    try:
+                        mem = s.prog.find_member(s.self_class[0], s.self_class[1], at_[1][2])
+                        ann = getattr(mem[1], 'annotation', None) if mem else None
+                        r = s.prog.resolve_expr(mem[0], ann) if isinstance(ann, (ast.Name, ast.Attribute)) else None
+                        if r and r[0] == 'class':
+                            gi = s.prog.find_member(r[1], r[2], '__getitem__')
+                            if gi and isinstance(gi[1], ast.FunctionDef):
+                                e2 = Evaluator(s.prog); e2.self_class = (r[1], r[2])
+                                t2 = e2.call_fn(gi[1], gi[0], [Poly.atom('self'), Poly.atom('key')], {}, {'__parent__': None}, 1)
+                                a2 = t2.as_atom() if isinstance(t2, Poly) else None
+                                if isinstance(a2, tuple) and len(a2) == 3 and a2[0] == '[]' and isinstance(a2[1], tuple) and a2[1][:2] == ('.', 'self') and a2[2] == tkey(Poly.atom('key')):
+                                    cache[ck_] = a2[1][2]
+                    except Exception:
+                        cache[ck_] = None
+                if cache[ck_] is not None and cache[ck_] == at_[2]: return s.getitem(Poly.atom(at_[1]), k)
         if isinstance(v, Comp) and v.kind == 'dict' and len(v.gens) == 1 and isinstance(v.elt, tuple) and len(v.elt) == 2 and isinstance(k, Poly) and isinstance(v.elt[0], Poly):
             # {x: f(x) for x in xs if ...}[k]  is  f(k)  (when the lookup succeeds at all)
             beta_ = s.elem_of(v.gens[0][0], 0)
